@@ -29,16 +29,25 @@ theorem C15_driver_row (n : NFA) (S : List Nat) (b : UInt8) :
     For every automaton `n` (in particular `e.toNFA`) and every input `w` the run is a function of `w`, and
     * it is dead (`none`) exactly when no NFA state is reachable reading `w`;
     * otherwise the DFA state is exactly the set of NFA states reachable reading `w`, in canonical
-      (strictly increasing) form — so two inputs that reach the same NFA states reach the *same* DFA state. -/
+      (strictly increasing) form — so two inputs that reach the same NFA states reach the *same* DFA state;
+    * the run is the iteration of the one-step `transition`. -/
 theorem C15_deterministic_total (n : NFA) (w : List UInt8) :
     (n.compile.run w = none ↔ ∀ q, ¬ Reach n w q) ∧
     (∀ S, n.compile.run w = some S → S.Pairwise (· < ·) ∧ ∀ q, q ∈ S ↔ Reach n w q) ∧
     (∀ S w' S', n.compile.run w = some S → n.compile.run w' = some S' →
-      (∀ q, Reach n w q ↔ Reach n w' q) → S = S') := by
-  refine ⟨run_eq_none_iff n w, fun S h => ⟨run_sorted n w S h, mem_run n w S h⟩, ?_⟩
-  intro S w' S' h h' hq
-  refine sorted_ext (run_sorted n w S h) (run_sorted n w' S' h') (fun q => ?_)
-  rw [mem_run n w S h, mem_run n w' S' h', hq]
+      (∀ q, Reach n w q ↔ Reach n w' q) → S = S') ∧
+    (∀ b, n.compile.run (w ++ [b]) = (n.compile.run w).bind fun S => n.compile.transition S b) := by
+  refine ⟨run_eq_none_iff n w, fun S h => ⟨run_sorted n w S h, mem_run n w S h⟩, ?_, ?_⟩
+  · intro S w' S' h h' hq
+    refine sorted_ext (run_sorted n w S h) (run_sorted n w' S' h') (fun q => ?_)
+    rw [mem_run n w S h, mem_run n w' S' h', hq]
+  · intro b
+    rw [run_append]
+    cases n.compile.run w with
+    | none => rfl
+    | some S =>
+      simp only [DFA.transitionMany, Option.bind_some]
+      cases n.compile.transition S b <;> rfl
 
 /-- a dead input has no matching extension -/
 theorem C15_dead (e : Re) (w : List UInt8) (h : e.toNFA.compile.run w = none) (v : List UInt8) :
@@ -66,17 +75,28 @@ theorem C15_terminal_iff (n : NFA) (S : DState) :
     n.compile.isTerminal S = true ↔ ∀ b, n.compile.transition S b = none := isTerminal_iff _ S
 
 
-theorem mem_tagsAfter_iff (n : NFA) (w : List UInt8) (t : Nat) : t ∈ n.compile.tagsAfter w ↔ TagReach n w t := by
-  rw [mem_tagsAfter]
-  unfold TagReach
-  simp only [tagOf_eq]
-
 /-- the tags a choice reports after `w` are the tags its alternatives report after `w`
     (any well-formed operand automata, tags anywhere inside them) -/
 theorem C15_tags_choice (ns : List NFA) (hwf : ∀ n ∈ ns, WF n) (w : List UInt8) (t : Nat) :
     t ∈ (NFA.choice ns).compile.tagsAfter w ↔ ∃ n ∈ ns, t ∈ n.compile.tagsAfter w := by
   simp only [mem_tagsAfter_iff]
   exact choice_tagReach ns hwf w t
+
+example : ∀ n ∈ [(Re.lit [97]).toNFA, (Re.plus (Re.tag 3 (Re.lit [98]))).toNFA], WF n := by
+  intro n hn
+  simp at hn
+  rcases hn with rfl | rfl <;> exact (toNFA_spec _).1
+
+/-- `tags_map` renames the reported tags and changes nothing else -/
+theorem C15_tags_map (n : NFA) (f : Nat → Nat) (w : List UInt8) (t : Nat) :
+    (t ∈ (n.tagsMap f).compile.tagsAfter w ↔ ∃ t', t' ∈ n.compile.tagsAfter w ∧ f t' = t) ∧
+    ((n.tagsMap f).compile.matches w = n.compile.matches w) := by
+  constructor
+  · simp only [mem_tagsAfter_iff]
+    exact tagsMap_tagReach n f w t
+  · have h := tagsMap_lang n f w
+    rw [← matches_iff_lang, ← matches_iff_lang] at h
+    cases h1 : (n.tagsMap f).compile.matches w <;> cases h2 : n.compile.matches w <;> simp_all
 
 /-- **Tags.** When the alternatives of a choice carry tags (some may carry none, tags may repeat), the tags
     reported after consuming `w` are exactly the tags of the alternatives that match `w`; the report is a
@@ -113,5 +133,14 @@ example : ∀ a ∈ [(Re.lit [97, 98, 99], some 1), (Re.plus (Re.lit [97]), some
 
 example : (Re.altT [(Re.lit [97, 98], some 1), (Re.plus (Re.pred [(97, 98)]), some 2), (Re.lit [97], some 1)]).toNFA.compile.tagsAfter [97, 98] = [1, 2] := by
   decide
+
+/-! The defect of the pinned tree, on the model: `optional` written as `start →ε stop` added in place accepts
+`a` for `(a+ b)?`; the repaired form (the one modelled and proved above) does not. -/
+
+/-- the pinned tree's `NFA::optional` -/
+def optionalInPlace (n : NFA) : NFA := { n with states := addEps n.states n.start n.stop }
+
+example : (optionalInPlace (Re.seq [.plus (.lit [97]), .lit [98]]).toNFA).compile.matches [97] = true := by decide
+example : (Re.opt (Re.seq [.plus (.lit [97]), .lit [98]])).toNFA.compile.matches [97] = false := by decide
 
 end SurfProofs.C15
